@@ -52,7 +52,9 @@ pub fn run(ctx: &mut Ctx) {
     ctx.ev.rule = "generated ledgers with SPLIT/UNSPLIT (ratios 2, 4, 5, 10, 0.5, 2.5, and consolidations by 3, 6, 7, 9 of exactly divisible holdings) at any position relative to purchases, sales, 30-day windows and cost events. Oracles on the real calculate(): (a) for each split line, the ledger rewritten in post-split units (earlier quantities × ratio, earlier unit prices ÷ ratio, line removed) gives the same gains, losses, proceeds, allowable costs per disposal (legs per rule and acquisition date) and the same closing cost, with closing quantities equal; (b) inserting SPLIT r immediately followed by UNSPLIT r (same day, or next day with no trade between) changes nothing. Ledgers where a security has both a split and a cost event are in known-finding class splitBeforeCostEvent (D5). Correspondence: whole report vs model. Non-trivial = accepted ledger with a split between a disposal and its 30-day acquisition, or a split and ≥ 2 disposals; distinct by ledger text.".into();
     let ex = run_impl::wide_exemptions();
     let mut r = Rng::new(ctx.seed ^ 0xC10);
+    let mut cli_left: u32 = if ctx.tier == Tier::Quick { 8 } else { 80 };
     for (name, l) in cases {
+        if cli_left > 0 && well_formed(&l) && l.len() >= 3 { cli_left -= 1; cli_crosscheck(ctx, prop, &l, None); }
         if !well_formed(&l) || l.is_empty() { continue; }
         ctx.ev.evaluations += 1;
         let base = run_impl::impl_calc(&l, None, &ex);
